@@ -1,49 +1,179 @@
 package main
 
 import (
+	"bufio"
 	"fmt"
+	"io"
 	"os"
-	"path/filepath"
+	"os/exec"
 	"strings"
+	"time"
 )
 
-// Pruner decides branch feasibility with a short solver call; an arm is dropped only on "unsat".
+// Pruner decides branch feasibility with one incremental z3 process per function under verification.
+// The solver's assertion stack mirrors the current path (one push per path assertion, popped back to
+// the common prefix when the depth-first exploration moves to another path). Only "unsat" prunes an
+// arm, so leaving out the quantified prelude axioms and using a short timeout is sound (fewer prunes,
+// never a wrong one).
 type Pruner struct {
-	dir   string
-	n     int
-	calls int
+	cmd     *exec.Cmd
+	in      io.WriteCloser
+	out     *bufio.Reader
+	stack   []string       // asserted path facts, one scope each
+	declAt  map[string]int // declaration text -> stack depth at which it was sent
+	calls   int
+	unsat   int
+	dead    bool
+	elapsed time.Duration
+	errors  int
+	log     *os.File
+}
+
+func newPruner() *Pruner {
+	p := &Pruner{declAt: map[string]int{}}
+	p.cmd = exec.Command("z3-new", "-in", "-smt2")
+	var err error
+	if p.in, err = p.cmd.StdinPipe(); err != nil {
+		p.dead = true
+		return p
+	}
+	so, err := p.cmd.StdoutPipe()
+	if err != nil {
+		p.dead = true
+		return p
+	}
+	p.out = bufio.NewReader(so)
+	if err := p.cmd.Start(); err != nil {
+		p.dead = true
+		return p
+	}
+	if f := os.Getenv("GOVC_PRUNE_LOG"); f != "" {
+		p.log, _ = os.Create(f)
+	}
+	p.send("(set-option :timeout 60)\n(set-logic ALL)\n")
+	return p
+}
+
+func (p *Pruner) close() {
+	if p == nil || p.dead {
+		return
+	}
+	p.dead = true
+	p.in.Close()
+	p.cmd.Process.Kill()
+	p.cmd.Wait()
+}
+
+func (p *Pruner) send(s string) {
+	if p.dead {
+		return
+	}
+	if p.log != nil {
+		p.log.WriteString(s)
+	}
+	if _, err := io.WriteString(p.in, s); err != nil {
+		p.dead = true
+	}
+}
+
+func (p *Pruner) declare(text string) {
+	if _, ok := p.declAt[text]; ok {
+		return
+	}
+	p.declAt[text] = len(p.stack)
+	p.send(text + "\n")
+}
+
+func (p *Pruner) popTo(depth int) {
+	if depth >= len(p.stack) {
+		return
+	}
+	p.send(fmt.Sprintf("(pop %d)\n", len(p.stack)-depth))
+	p.stack = p.stack[:depth]
+	for d, at := range p.declAt {
+		if at > depth {
+			delete(p.declAt, d)
+		}
+	}
+}
+
+func (p *Pruner) sync(x *Exec, s *State) {
+	// quantified path facts are left out (sound: fewer facts, fewer prunes) so that every check is quantifier-free
+	pc := p.qf(s.pc)
+	// common prefix of the asserted stack and the path
+	k := 0
+	for k < len(p.stack) && k < len(pc) && p.stack[k] == pc[k] {
+		k++
+	}
+	p.popTo(k)
+	// declarations first (prelude in order, then error constants, then the path's constants)
+	decls := func() {
+		for _, n := range x.c.P.order {
+			p.declare(x.c.P.items[n].text)
+		}
+		for g := range x.c.errGlobals {
+			p.declare(fmt.Sprintf("(assert (not (= %s 0)))", g))
+		}
+		for _, d := range s.decls {
+			p.declare(d)
+		}
+	}
+	decls()
+	for i := k; i < len(pc); i++ {
+		p.send("(push 1)\n")
+		p.stack = append(p.stack, pc[i])
+		p.send("(assert " + pc[i] + ")\n")
+	}
 }
 
 func (p *Pruner) check(x *Exec, s *State, cond string) bool {
-	p.n++
+	if p.dead {
+		return true
+	}
+	t0 := time.Now()
 	p.calls++
-	var body strings.Builder
-	for _, l := range s.decls {
-		body.WriteString(l + "\n")
+	p.sync(x, s)
+	p.send("(push 1)\n(assert " + cond + ")\n(check-sat)\n(pop 1)\n(echo \"@@done\")\n")
+	if p.dead {
+		return true
 	}
-	for _, a := range s.pc {
-		body.WriteString("(assert " + a + ")\n")
+	// drain everything up to the marker; any error in between means the answer cannot be trusted
+	answer, bad := "", false
+	for {
+		line, err := p.out.ReadString('\n')
+		if err != nil {
+			p.dead = true
+			return true
+		}
+		line = strings.TrimSpace(line)
+		if p.log != nil {
+			p.log.WriteString("; <- " + line + "\n")
+		}
+		if line == "@@done" || line == "\"@@done\"" {
+			break
+		}
+		if strings.HasPrefix(line, "(error") {
+			bad = true
+			p.errors++
+			continue
+		}
+		if line == "sat" || line == "unsat" || line == "unknown" {
+			answer = line
+		}
 	}
-	body.WriteString("(assert " + cond + ")\n")
-	b := body.String()
-	var sb strings.Builder
-	sb.WriteString("(set-logic ALL)\n")
-	pre := x.c.P.render(b)
-	pre, unf := unfoldRecs(pre, b, 1)
-	b += unf
-	if strings.Contains(b, "Float64") || strings.Contains(pre, "Float64") {
-		sb.WriteString("(define-sort Float64 () (_ FloatingPoint 11 53))\n")
+	p.elapsed += time.Since(t0)
+	if bad {
+		// a malformed or undeclared term must never prune anything; resynchronise from scratch
+		p.popTo(0)
+		p.declAt = map[string]int{}
+		p.send("(reset)\n(set-option :timeout 60)\n(set-logic ALL)\n")
+		return true
 	}
-	sb.WriteString(pre)
-	sb.WriteString(x.c.errAxiom(pre + b))
-	sb.WriteString(b)
-	sb.WriteString("(check-sat)\n")
-	os.MkdirAll(p.dir, 0o755)
-	f := filepath.Join(p.dir, fmt.Sprintf("prune%05d.smt2", p.n))
-	os.WriteFile(f, []byte(sb.String()), 0o644)
-	r := runSolver(solvers[0], f, 2)
-	os.Remove(f)
-	return r.Status != "unsat"
+	if answer == "unsat" {
+		p.unsat++
+		return false
+	}
+	return true
 }
 
 func (p *Pruner) feasible2(x *Exec, s *State, ct, cf string) (bool, bool) {
@@ -52,4 +182,15 @@ func (p *Pruner) feasible2(x *Exec, s *State, ct, cf string) (bool, bool) {
 		return false, true
 	}
 	return true, p.check(x, s, cf)
+}
+
+func (p *Pruner) qf(pc []string) []string {
+	out := make([]string, 0, len(pc))
+	for _, a := range pc {
+		if strings.Contains(a, "(forall ") || strings.Contains(a, "(exists ") {
+			continue
+		}
+		out = append(out, a)
+	}
+	return out
 }
